@@ -1,10 +1,47 @@
 import SkaModel.Core.Proto
+import SkaModel.Core.Wrapper
 
-/-! Driver commands for the `Wrapper` model family. One self-contained case per line. -/
+/-! Driver commands for the wrapper strategies (C20). One self-contained case per line. -/
 
 namespace Ska.Drv.Wrapper
-open Ska Ska.Proto
+open Ska Ska.Proto Ska.Wrapper
 
-def handlers : List (String × P String) := []
+/-- `arraysplit <n> <njobs:int> <cpu>` → `chunks=<k> sizes…` for `n` candidates -/
+def cmdArraySplit : P String := do
+  let n ← nat
+  let nj ← int
+  let cpu ← nat
+  let _ ← (do let t ← tok; if t = "sorted" then pure () else failure) <|> pure ()
+  let k := nChunks nj n cpu
+  -- numpy's section sizes are already non-increasing, so the sorted multiset is the list itself
+  pure s!"chunks={k} {showNats (sectionSizes n k)}"
+
+/-- `subsize <m> <ncand> <cand…> <sub…>` → `size=<k> choice=<0|1>` -/
+def cmdSubSize : P String := do
+  let m ← nat
+  let cand ← listOf nat
+  let sub ← listOf nat
+  let k := subSize m cand.length
+  pure s!"size={k} choice={if choiceOkB cand k sub then 1 else 0}"
+
+/-- `subrow <n> <cand…> <sub…> <inner row: n optfloats>` → the caller-space row -/
+def cmdSubRow : P String := do
+  let n ← nat
+  let cand ← listOf nat
+  let sub ← listOf nat
+  let inner ← many optFloat n
+  let ninf : Float := -(1.0 / 0.0)
+  pure (showOptFloats (subRowCode ninf n cand sub inner))
+
+/-- `subsal <labeled…> <sub…> <q…>` → `sal | inner candidates | expand q` -/
+def cmdSubSal : P String := do
+  let labeled ← listOf nat
+  let sub ← listOf nat
+  let q ← listOf nat
+  let sal := subsetAndLabeled labeled sub
+  pure (showNats sal ++ " | " ++ showNats (innerCands sal sub) ++ " | " ++ showNats (expand sal q))
+
+def handlers : List (String × P String) :=
+  [ ("arraysplit", cmdArraySplit), ("subsize", cmdSubSize), ("subrow", cmdSubRow), ("subsal", cmdSubSal) ]
 
 end Ska.Drv.Wrapper
